@@ -1,8 +1,10 @@
 SPECIFICATION Spec
 CONSTANTS MaxLen = 4
           ClipBug = TRUE
+          FrozenBug = FALSE
 INVARIANT Range
 INVARIANT Monotone
 INVARIANT EndPoints
 INVARIANT NaNMasked
+INVARIANT LimitsOfCurrentData
 INVARIANT AffineInvariant
